@@ -110,6 +110,7 @@ def simulate(prop, cfg, ops=None, known=(), digest=False, want_trace=False, stat
     W.recent_ns = []
     W.last_touch = None
     W.corpus_loaded = False
+    W.corpus_json_loaded = False
     W.cfg = cfg
     state = {"collisions": []}
     profile.start(state)
